@@ -4,3 +4,4 @@ pub mod exec;
 pub mod io;
 pub mod svc;
 pub mod conn;
+pub mod run;
